@@ -35,7 +35,11 @@ pub struct Sc {
 pub struct C06;
 
 const BASES: [&str; 6] = ["foo", "bar", "foo-bar", "fo", "baz", "f"];
-const VERSIONS: [&str; 46] = [
+const VERSIONS: [&str; 60] = [
+    // characters the dewey rule ignores (non-ASCII of 2, 3 and 4 bytes, ASCII punctuation) next to digits
+    "1.0\u{20ac}5", "1\u{2003}2", "2.0\u{212a}1", "1.0\u{e9}1", "1.0\u{1f600}3", "1+2", "1~1", "1.0\u{20ac}nb3", "\u{20ac}1.0",
+    // digit runs at and beyond the i64 range (all such values saturate to the same component)
+    "9223372036854775807", "9223372036854775808", "99999999999999999999", "9223372036854775807.0", "18446744073709551616",
     "1234567890123456789", "1234567890123456788", "0000000000000000001", "999999999999999999", "9223372036854775806",
     "1.1234567890123456789",
     "1.0", "1", "1.0.0", "1.00", "1.0nb1", "1.0nb0", "1.0nb", "1nb1", "1.0nb2", "1.0alpha", "1.0alpha1", "1.0beta",
@@ -88,7 +92,9 @@ fn version_of(name: &str) -> &str {
 }
 
 /// Independent model of the dewey rule on the *numeric sub-domain*: versions made
-/// only of digit runs (each below 2^63), '.', '_' and one trailing "nb<digits>".
+/// only of digit runs (each below 2^63), '.', '_', characters the rule ignores
+/// (non-ASCII characters and ASCII punctuation other than '.', '_') and one
+/// trailing "nb<digits>".
 /// On this sub-domain the rule is unambiguous (digit run = its value, '.' and
 /// '_' = 0, missing components = 0, the revision decides last) and the pinned
 /// tree agrees with it, so it can be used as an oracle without claiming C01.
@@ -120,6 +126,13 @@ fn numeric_model(v: &str) -> Option<(Vec<u128>, u128)> {
             i = j;
         } else if b[i] == b'.' || b[i] == b'_' {
             comps.push(0);
+            i += 1;
+        } else if b[i] >= 0x80 {
+            // a non-ASCII character: ignored as a whole
+            let ch = body[i..].chars().next()?;
+            i += ch.len_utf8();
+        } else if b[i].is_ascii_punctuation() && !matches!(b[i], b'-' | b'{' | b'}' | b'<' | b'>') {
+            // other ASCII punctuation: ignored
             i += 1;
         } else {
             return None;
@@ -483,22 +496,28 @@ impl Property for C06 {
         Ok(())
     }
 
-    fn shrink(&self, sc: &Sc) -> Vec<Sc> {
-        let mut out = Vec::new();
+    fn shrink(&self, sc: &Sc, emit: &mut dyn FnMut(Sc) -> bool) {
+        macro_rules! push {
+            ($e:expr) => {
+                if emit($e) {
+                    return;
+                }
+            };
+        }
         for (ri, r) in sc.replicas.iter().enumerate() {
             for d in shrink_vec(r) {
                 let mut s = sc.clone();
                 s.replicas[ri] = d;
-                out.push(s);
+                push!(s);
             }
         }
         for m in shrink_vec(&sc.merges) {
-            out.push(Sc { merges: m, ..sc.clone() });
+            push!(Sc { merges: m, ..sc.clone() });
         }
         if sc.replicas.len() > 1 {
             // collapse into one replica
             let all: Vec<Delivery> = sc.replicas.iter().flatten().cloned().collect();
-            out.push(Sc {
+            push!(Sc {
                 pattern: sc.pattern.clone(),
                 replicas: vec![all],
                 merges: vec![],
@@ -509,11 +528,10 @@ impl Property for C06 {
                 if d.new_first {
                     let mut s = sc.clone();
                     s.replicas[ri][di].new_first = false;
-                    out.push(s);
+                    push!(s);
                 }
             }
         }
-        out
     }
 
     fn classify(&self, _sc: &Sc, _v: &Violation) -> String {
